@@ -52,7 +52,7 @@ def work(task):
     viol = []
     for dev in task["devs"]:
         vis = V()
-        nodes, done, msgs = tree.run_dev(cfg, default_fn, alts, dev, h, vis)
+        nodes, done, msgs = tree.run_dev(cfg, default_fn, alts, dev, h, vis, batch=int(task.get("batch", 1)))
         stats["runs"] += 1
         stats["nodes"] += nodes
         stats["trials"] += done
@@ -63,7 +63,7 @@ def work(task):
                 stats["summary"][k] = stats["summary"].get(k, 0) + v
         for j, m in msgs:
             viol.append(dict(driver="dev", cfg=cfg, alts=task["alts"], dev=[list(d) for d in dev], h=j, message=m,
-                             visitor=task["visitor"], sig=dict(kind="node")))
+                             batch=int(task.get("batch", 1)), visitor=task["visitor"], sig=dict(kind="node")))
         if len(viol) > 50:
             break
     return stats, viol
@@ -78,31 +78,21 @@ def replay(rec, visitor_spec):
     alts = _alt_fns(default_fn, [tuple(a) for a in rec["alts"]])
     dev = tuple((int(p), int(a)) for p, a in rec["dev"])
     vis = V()
-    run = tree.make_run(cfg, tree.dev_answer(default_fn, alts, dev), listeners=tree._listeners(vis, cfg))
-    vis.begin(run, cfg)
-    msgs = []
-    for j in range(1, int(rec["h"]) + 1):
-        try:
-            run.step(1)
-        except BaseException as e:
-            if tree._horizon(run, cfg):
-                return msgs + list(vis.leaf(run) or ())
-            msgs.append(f"DoGlobalIteration raised {type(e).__name__}: {e} at trial {j}")
-            return msgs
-        msgs += list(vis.node(run, j, True) or ())
-    msgs += list(vis.leaf(run) or ())
-    return msgs
+    nodes, done, msgs = tree.run_dev(cfg, default_fn, alts, dev, int(rec["h"]), vis, batch=int(rec.get("batch", 1)))
+    return [m for _, m in msgs]
 
 
-def dev_tasks(cfg, h, b, visitor, alts=ALTS, chunk=150, start=2):
+def dev_tasks(cfg, h, b, visitor, alts=ALTS, chunk=150, start=2, batch=1):
     devs = list(tree.deviation_sets(h, len(alts), b, start=start))
     for i in range(0, len(devs), chunk):
-        yield dict(kind="dev", cfg=cfg, h=h, alts=[list(a) for a in alts], devs=devs[i:i + chunk], visitor=visitor)
+        yield dict(kind="dev", cfg=cfg, h=h, alts=[list(a) for a in alts], devs=devs[i:i + chunk], visitor=visitor,
+                   batch=batch)
 
 
-def tree_tasks(cfg, alphabet_name, depth, visitor, split=2):
+def tree_tasks(cfg, alphabet_name, depth, visitor, split=2, batch=1):
     for t in tree.tree_tasks(cfg, ALPHABETS[alphabet_name], depth, split=split):
         t["kind"] = "tree"
+        t["batch"] = batch
         t["visitor"] = visitor
         t["alphabet_name"] = alphabet_name
         yield t
@@ -129,6 +119,14 @@ def standard_plan(ctx, visitor, depths_quick=(8, 7, 6, 5, 5), depths_thorough=(1
                         d -= 1
                     cfg = dict(N=N, r=r, box=bx)
                     tasks += list(tree_tasks(cfg, a, d, visitor, split=2 if d < 9 else 3))
+    # the same trees driven through DoGlobalIteration(k), k > 1 (and one call for the whole depth)
+    for N in (1, 2, 3, 4, 5):
+        d = depths[N - 1]
+        for r in ((2.0, 3.5) if th else (2.0,)):
+            for bsz in ((2, 3, 4, d) if th else (2, 3, d)):
+                for a in (("A013", "Am201") if th else ("A013",)):
+                    cfg = dict(N=N, r=r, box=boxes[0])
+                    tasks += list(tree_tasks(cfg, a, d, visitor, split=2 if d < 9 else 3, batch=bsz))
     if long_runs:
         envs = ("abs13", "const", "lin", "stair")
         for N in ((1, 2, 3) if th else (1, 2)):
@@ -144,6 +142,8 @@ def standard_plan(ctx, visitor, depths_quick=(8, 7, 6, 5, 5), depths_thorough=(1
             cfg = dict(N=N, r=2.5, env="bench:" + spec)
             tasks += list(dev_tasks(cfg, 500 if th else 200, 0, visitor))
             tasks += list(dev_tasks(cfg, 60 if th else 40, 1, visitor, chunk=20))
+            tasks += list(dev_tasks(cfg, 300 if th else 120, 0, visitor, batch=7))
+            tasks += list(dev_tasks(cfg, 60 if th else 36, 1, visitor, chunk=20, batch=3))
     return tasks
 
 
@@ -181,11 +181,13 @@ def describe(tasks):
     for t in tasks:
         c = t["cfg"]
         if t["kind"] == "tree":
-            key = f"N={c['N']} r={c['r']} box={c.get('box')} V={t['alphabet_name']} depth={t['depth']}"
+            key = f"N={c['N']} r={c['r']} box={c.get('box')} V={t['alphabet_name']} depth={t['depth']}" + \
+                  (f" batch={t['batch']}" if t.get("batch", 1) != 1 else "")
             trees[key] = trees.get(key, 0) + len(t["alphabet"]) ** (t["depth"] - len(t["prefix"]))
         else:
             b = max((len(d) for d in t["devs"]), default=0)
-            key = f"N={c['N']} r={c['r']} env={c['env']} horizon={t['h']}"
+            key = f"N={c['N']} r={c['r']} env={c['env']} horizon={t['h']}" + \
+                  (f" batch={t['batch']}" if t.get("batch", 1) != 1 else "")
             e = devs.setdefault(key, [0, 0])
             e[0] += len(t["devs"])
             e[1] = max(e[1], b)
